@@ -1,7 +1,7 @@
 (* Props/C17.v -- property C17: route matching is sound, lazy and total.
    This file contains only the property theorems, each closed by [exact], pinned by [Check]. *)
-From Coq Require Import List String.
-From Syc Require Import Router.Match Router.MatchFacts.
+From Coq Require Import List String Ascii.
+From Syc Require Import Router.Match Router.MatchFacts Router.UrlFacts.
 Import ListNotations.
 
 (* matching succeeds exactly when the path fits the pattern, with exactly those captures *)
@@ -52,3 +52,21 @@ Theorem C17_pinned_refuted :
   wf refute_pat = true /\ match_path_pinned refute_pat refute_path = MSome [] /\
   ~ (exists c, fits refute_pat (strip_last refute_path) c).
 Proof. exact pinned_refuted. Qed.
+
+(* "ignoring query and fragment", for URL strings: whatever follows the first '?' or '#' -- '/' included -- has no influence on
+   what the derived enum returns *)
+Theorem C17_query_ignored : forall e path rest,
+  has_char "?"%char path = false -> has_char "#"%char path = false ->
+  match_route e (path ++ String "?"%char rest)%string = match_route e path.
+Proof. intros e. exact (query_ignored true e). Qed.
+
+Theorem C17_fragment_ignored : forall e path rest,
+  has_char "?"%char path = false -> has_char "#"%char path = false ->
+  match_route e (path ++ String "#"%char rest)%string = match_route e path.
+Proof. intros e. exact (fragment_ignored true e). Qed.
+
+Example C17_query_with_slash :
+  let e := [{| vpat := [Param "login"%string]; vfields := [] |}; {| vpat := [Param "home"%string]; vfields := [] |}] in
+  match_route e "/login?next=/home"%string = EVariant 0 [] /\ match_route e "/#top"%string = ENotFound
+  /\ match_route [{| vpat := []; vfields := [] |}] "/#top"%string = EVariant 0 [].
+Proof. vm_compute. repeat split. Qed.
